@@ -24,6 +24,14 @@ Proof.
   - f_equal. exact (IH k H).
 Qed.
 
+(* [injection] on an equation between results whose sides are unevaluated runs would evaluate them lazily: take the
+   components by congruence instead *)
+Lemma ok_state_eq {S : Type} {O : Type} (a b : S) (o o' : O) : Ok (a, o) = Ok (b, o') -> a = b.
+Proof. intros H. injection H as H1 _. exact H1. Qed.
+
+Lemma some_eq {A : Type} (a b : A) : Some a = Some b -> a = b.
+Proof. intros H. injection H as H1. exact H1. Qed.
+
 Definition is_some {A : Type} (o : option A) : bool := match o with Some _ => true | None => false end.
 
 Definition fx_p0 : pkt := mkp 0 1 0 256 0.
